@@ -88,6 +88,9 @@ func (k Keeper) AssignMembersForSigning(
 	if err != nil {
 		return types.AssignedMembers{}, err
 	}
+	if err := failAfterDequeue(ctx); err != nil {
+		return types.AssignedMembers{}, err
+	}
 
 	var assignedMembers types.AssignedMembers
 	for i, member := range selectedMembers {
